@@ -64,7 +64,7 @@ int strCmp(const char* str1, const char* str2)
 {
 	ASSERT(strIsValid(str1));
 	ASSERT(strIsValid(str2));
-	return strcmp(str1, str2);
+	return strcmp(str1 ? str1 : "", str2 ? str2 : "");
 }
 
 void strSet(char* str, char ch)
